@@ -7,23 +7,25 @@ open Flatland.C03
 
 def optStr (j : Json) : Except String (Option Str) := optOf chars j
 
-/-- natives as tagged JSON: null | {"s":text} | {"a":atom tag} | [..] | {"d":[[k,v]..]} |
-    {"pairs":[[k,v]..]} | {"junk":1} -/
+/-- natives as tagged JSON: null | {"s":text} | {"a":atom tag} | [..] (list, generator) |
+    {"t":[..]} (tuple) | {"d":[[k,v]..]} (keys are natives) | {"nt":[[name,v]..]} (namedtuple) |
+    {"junk":1} -/
 partial def parseNative (j : Json) : Except String Native := do
   if isNull j then return .none
   if let .ok l := j.getArr? then return .list (← l.toList.mapM parseNative)
   if let .ok s := fld j "s" then return .text (← chars s)
   if let .ok a := fld j "a" then return .atom (← chars a)
+  if let .ok t := fld j "t" then return .tuple (← (← arr t).mapM parseNative)
   if let .ok d := fld j "d" then
     return .dict (← (← arr d).mapM (fun p => do
       match (← arr p) with
-      | [k, v] => return ((← chars k), (← parseNative v))
+      | [k, v] => return ((← parseNative k), (← parseNative v))
       | _ => throw "bad dict pair"))
-  if let .ok d := fld j "pairs" then
-    return .pairs (← (← arr d).mapM (fun p => do
+  if let .ok d := fld j "nt" then
+    return .ntuple (← (← arr d).mapM (fun p => do
       match (← arr p) with
       | [k, v] => return ((← chars k), (← parseNative v))
-      | _ => throw "bad pair"))
+      | _ => throw "bad namedtuple field"))
   if let .ok _ := fld j "junk" then return .junk
   throw s!"bad native {j.compress}"
 
@@ -32,8 +34,9 @@ partial def nativeJson : Native → Json
   | .atom t => obj [("a", ofChars t)]
   | .text s => obj [("s", ofChars s)]
   | .list xs => ofList nativeJson xs
-  | .dict kvs => obj [("d", ofList (fun (p : Str × Native) => Json.arr #[ofChars p.1, nativeJson p.2]) kvs)]
-  | .pairs kvs => obj [("pairs", ofList (fun (p : Str × Native) => Json.arr #[ofChars p.1, nativeJson p.2]) kvs)]
+  | .tuple xs => obj [("t", ofList nativeJson xs)]
+  | .dict kvs => obj [("d", ofList (fun (p : Native × Native) => Json.arr #[nativeJson p.1, nativeJson p.2]) kvs)]
+  | .ntuple kvs => obj [("nt", ofList (fun (p : Str × Native) => Json.arr #[ofChars p.1, nativeJson p.2]) kvs)]
   | .junk => obj [("junk", ofNat 1)]
 
 partial def parseSchema (j : Json) : Except String Schema := do
@@ -58,29 +61,51 @@ partial def elemJson : Elem → Json
   | .dict ms => obj [("dict", ofList (fun (p : Str × Elem) => Json.arr #[ofChars p.1, elemJson p.2]) ms)]
   | .seq ms => obj [("seq", ofList elemJson ms)]
 
-/-- adapt table: [[k, native, flag, value, u, parts]...], blank table: [[k, value, u, parts]...];
-    natives are compared through their compressed JSON -/
+def missing : Str := "?missing".toList
+
+def stateEq (a b : LeafState) : Bool := decide (a = b)
+
+def mkEnv (adaptT : List (Nat × String × Bool × LeafState))
+    (adapt2T : List (Nat × LeafState × String × Bool × LeafState)) (bt : List (Nat × LeafState)) : Env :=
+  let blankLeaf : Nat → LeafState := fun k =>
+    match bt.find? (fun e => e.1 == k) with
+    | some e => e.2
+    | none => (.junk, missing, [])
+  { adapt := fun (k : Nat) (st : LeafState) (x : Native) =>
+      let key := (nativeJson x).compress
+      if stateEq st (blankLeaf k) then
+        match adaptT.find? (fun e => e.1 == k && e.2.1 == key) with
+        | some e => e.2.2
+        | none => (false, .junk, missing, [])
+      else
+        match adapt2T.find? (fun e => e.1 == k && stateEq e.2.1 st && e.2.2.1 == key) with
+        | some e => e.2.2.2
+        | none => (false, .junk, missing, [])
+    blankLeaf := blankLeaf }
+
+/-- adapt table of fresh leaf-likes: [[k, native, flag, value, u, parts]...]; of leaf-likes that were
+    set before (reached through duplicate keys): adapt2 [[k, [value, u, parts], native, flag, value, u,
+    parts]...]; blank table: [[k, value, u, parts]...].  Inputs are looked up through their compressed
+    JSON. -/
 def parseEnv (j : Json) : Except String Env := do
+  let state (v u ps : Json) : Except String LeafState := do
+    return ((← parseNative v), (← chars u), (← (← arr ps).mapM chars))
   let adaptT ← (← afld j "adapt").mapM (fun e => do
     match (← arr e) with
-    | [k, x, f, v, u, ps] =>
-      return ((← nat k), x.compress, (← bool f), (← parseNative v), (← chars u), (← (← arr ps).mapM chars))
+    | [k, x, f, v, u, ps] => return ((← nat k), x.compress, (← bool f), (← state v u ps))
     | _ => throw "bad adapt entry")
+  let adapt2T ← (← arr (fldD j "adapt2" (Json.arr #[]))).mapM (fun e => do
+    match (← arr e) with
+    | [k, c, x, f, v, u, ps] =>
+      match (← arr c) with
+      | [cv, cu, cps] => return ((← nat k), (← state cv cu cps), x.compress, (← bool f), (← state v u ps))
+      | _ => throw "bad adapt2 state"
+    | _ => throw "bad adapt2 entry")
   let bt ← (← afld j "blank").mapM (fun e => do
     match (← arr e) with
-    | [k, v, u, ps] => return ((← nat k), (← parseNative v), (← chars u), (← (← arr ps).mapM chars))
+    | [k, v, u, ps] => return ((← nat k), (← state v u ps))
     | _ => throw "bad blank entry")
-  let missing : Str := "?missing".toList
-  return {
-    adapt := fun k x =>
-      let key := (nativeJson x).compress
-      match adaptT.find? (fun e => e.1 == k && e.2.1 == key) with
-      | some e => (e.2.2.1, e.2.2.2.1, e.2.2.2.2.1, e.2.2.2.2.2)
-      | none => (false, .junk, missing, [])
-    blankLeaf := fun k =>
-      match bt.find? (fun e => e.1 == k) with
-      | some e => e.2
-      | none => (.junk, missing, []) }
+  return mkEnv adaptT adapt2T bt
 
 def resultJson (r : Except Raise (Elem × Bool)) : Json :=
   match r with
@@ -88,15 +113,29 @@ def resultJson (r : Except Raise (Elem × Bool)) : Json :=
   | .error .typeError => obj [("raise", Json.str "TypeError")]
   | .ok (e, f) => obj [("flag", Json.bool f), ("elem", elemJson e), ("value", nativeJson (value e))]
 
-/-- case: schema, x (native), env -/
+/-- case: schema, x (native), env.  `first`: a fresh element set with x; `again`: another fresh
+    element set with the first one's exported value; `hyp_holds` / `hyp_true`: the hypothesis of
+    `Proofs.C03.reimport` / `reimport_true` evaluated on the first element with the tables of the
+    real classes.  `spec_agrees` is False should the computed results contradict the theorems. -/
 def run (j : Json) : Except String Json := do
   let s ← parseSchema (← fld j "schema")
   let env ← parseEnv (← fld j "env")
   let x ← parseNative (← fld j "x")
-  let r := setNative env s x
-  let again : Json := match r with
-    | .ok (e, _) => resultJson (setNative env s (value e))
-    | _ => Json.null
-  return obj [("first", resultJson r), ("again", again)]
+  let r := setNative env s (blank env s) x
+  match r with
+  | .ok (e, f) =>
+    let r2 := setNative env s (blank env s) (value e)
+    let hyp := leafStable env false s e
+    let hypT := leafStable env true s e
+    let same := match r2 with
+      | .ok (e2, _) => (elemJson e2).compress == (elemJson e).compress
+      | _ => false
+    let flag2 := match r2 with
+      | .ok (_, f2) => f2
+      | _ => false
+    let contradiction := f && ((hyp && !same) || (hypT && !(same && flag2)))
+    return obj [("first", resultJson r), ("again", resultJson r2),
+      ("hyp_holds", Json.bool hyp), ("hyp_true", Json.bool hypT), ("spec_agrees", Json.bool (!contradiction))]
+  | _ => return obj [("first", resultJson r), ("again", Json.null), ("hyp_holds", Json.null), ("hyp_true", Json.null)]
 
 end Flatland.Run.C03
